@@ -4,7 +4,7 @@
    consensus state as the life that was never killed. *)
 From Coq Require Import List NArith ZArith Bool Lia ZifyN ZifyBool.
 From V Require Import C12.Model C12.Proofs C13.Model C13.Proofs C13.Proofs_Commit C13.Proofs_Replay
-  C13.Proofs_Obs C13.Proofs_ObsStep C13.Proofs_Shape C13.Proofs_Wal C13.Proofs_Crash C13.Proofs_State.
+  C13.Proofs_Obs C13.Proofs_ObsStep C13.Proofs_Shape C13.Proofs_Wal C13.Proofs_Crash C13.Proofs_Inv C13.Proofs_State.
 Import ListNotations.
 Open Scope N_scope.
 
